@@ -183,6 +183,9 @@ def oracle(ops, records):
             return None
         o = lib_txn.parse_record(rec)
         res = o["res"].split(":")[0]
+        # (1) what the DATABASE shows and whether the call raised: never covered by a known
+        #     finding — an out-of-order rollback must still undo exactly the work since that
+        #     savepoint, and nothing rolled back may ever become visible to others
         why = None
         if exp["raises"] is True and res == "ok":
             why = "op %r on an ended/blocked transaction did not raise" % tok
@@ -194,30 +197,30 @@ def oracle(ops, records):
         if why is None and not ref.closed and o["working"] != "x":
             want_cur = ",".join(map(str, sorted(ref.cur))) or "-"
             if o["working"] != want_cur:
-                why = "connection sees %s, reference model %s" % (o["working"], want_cur)
+                why = "connection sees %s, reference model %s (a savepoint rollback must undo exactly the work since that savepoint)" % (o["working"], want_cur)
         if why is None and exp.get("sel") is not None and ":" in o["res"]:
             got = o["res"].split(":")[1]
             want = ",".join(map(str, exp["sel"])) or "-"
             if got != want:
                 why = "SELECT returned %s, reference model %s" % (got, want)
-        if why is None:
-            f = o["flags"]
-            if (f[0] == "1") != (ref.root is not None):
-                why = "in_transaction()=%s, reference model %s" % (f[0], ref.root is not None)
-            elif (f[1] == "1") != bool(ref.scopes):
-                why = "in_nested_transaction()=%s, reference model %s" % (f[1], bool(ref.scopes))
-            elif (f[2] == "1") != ref.closed:
-                why = "closed=%s, reference model %s" % (f[2], ref.closed)
+        if why is not None:
+            key = "c23-oracle" if ref.key is None else ref.key + "-data-visible"
+            return (key, i, "step %d (%s): %s" % (i, tok, why))
+        # (2) flags and handle state: here the known findings (F8, F18) apply, keyed by the
+        #     misuse pattern of this very step
+        f = o["flags"]
+        if (f[0] == "1") != (ref.root is not None):
+            why = "in_transaction()=%s, reference model %s" % (f[0], ref.root is not None)
+        elif (f[1] == "1") != bool(ref.scopes):
+            why = "in_nested_transaction()=%s, reference model %s" % (f[1], bool(ref.scopes))
+        elif (f[2] == "1") != ref.closed:
+            why = "closed=%s, reference model %s" % (f[2], ref.closed)
         if why is None:
             want_act = "".join("1" if ref.active(h) else "0" for h in range(len(ref.kinds))) or "-"
             if o["actives"] != want_act:
                 why = "is_active of handles %s, reference model %s" % (o["actives"], want_act)
         if why is not None:
             return (ref.key or "c23-oracle", i, "step %d (%s): %s" % (i, tok, why))
-        if ref.key is not None:
-            # a misuse pattern whose flag-level treatment the reference model and the code
-            # happen to agree on here; nothing more is claimed for this history
-            pass
     return None
 
 
